@@ -403,9 +403,9 @@ impl Check for C14 {
     fn generate(r: &mut Rng, tier: Tier) -> Case {
         if r.chance(1, 2) {
             let mut c = gen::draw_cfg(r, tier);
-            c.max_extra_nodes = c.max_extra_nodes.min(if c.huge { 70 } else if c.large { 6 } else { 3 });
-            c.max_edges = c.max_edges.min(if c.huge { 40 } else if c.large { 4 } else { 2 });
-            c.max_iface = c.max_iface.min(if c.huge { 40 } else if c.large { 4 } else { 3 });
+            c.max_extra_nodes = c.max_extra_nodes.min(if c.huge { 140 } else if c.large { 6 } else { 3 });
+            c.max_edges = c.max_edges.min(if c.huge { 70 } else if c.large { 4 } else { 2 });
+            c.max_iface = c.max_iface.min(if c.huge { 70 } else if c.large { 4 } else { 3 });
             c.max_arity = c.max_arity.min(2);
             let (f, g) = gen::gen_pair(r, &c);
             Case::Typing(TypingCase { f, g, spec: gen_ospec(r, c.node_labels), schedules: r.range(1, 2) })
